@@ -66,9 +66,15 @@ type e2eSpec struct {
 	ins      []*string // commit path: the inserted record
 	tags     []string
 	stream   string
+	lb2      text.LineBreak // --line-break of the second (INSERT + COMMIT) process
+	refuse   string // non-empty: the format cannot spell a cell of this table; the write must be refused and nothing written
 }
 
 type e2eResult struct {
+	writeCode   int    // exit code of the first write step
+	writeStderr string
+	stdoutLen   int // bytes the first write step printed (stdout path)
+	outFileLen  int // size of the --out file after a failed first step, -1 = absent
 	writeErr string
 	fileText *string // decoded file (UTF-8 formats only)
 	after    c02Loaded
@@ -220,6 +226,7 @@ func runE2E(spec *e2eSpec) e2eResult {
 	case "stdout":
 		r := runCsvq(sc.Dir, append(wargs, sel), "", to)
 		res.log = append(res.log, "csvq "+strings.Join(append(wargs, sel), " "))
+		res.writeCode, res.writeStderr, res.stdoutLen, res.outFileLen = r.Code, strings.TrimSpace(r.Stderr), len(r.Stdout), -1
 		if r.Code != 0 || r.TimedOut {
 			res.writeErr = fmt.Sprintf("exit %d: %s", r.Code, strings.TrimSpace(r.Stderr))
 			return res
@@ -231,6 +238,10 @@ func runE2E(spec *e2eSpec) e2eResult {
 		a := append(append([]string{}, wargs...), "--out", outName, sel)
 		r := runCsvq(sc.Dir, a, "", to)
 		res.log = append(res.log, "csvq "+strings.Join(a, " "))
+		res.writeCode, res.writeStderr, res.outFileLen = r.Code, strings.TrimSpace(r.Stderr), -1
+		if fi, err := os.Stat(sc.Path(outName)); err == nil {
+			res.outFileLen = int(fi.Size())
+		}
 		if r.Code != 0 || r.TimedOut {
 			res.writeErr = fmt.Sprintf("exit %d: %s", r.Code, strings.TrimSpace(r.Stderr))
 			return res
@@ -249,7 +260,7 @@ func runE2E(spec *e2eSpec) e2eResult {
 			vals[j] = sqlLit(v)
 		}
 		q := "INSERT INTO `" + outName + "` VALUES (" + strings.Join(vals, ", ") + ")"
-		a := append(append([]string{}, rargs...), "--line-break", spec.lb.String())
+		a := append(append([]string{}, rargs...), "--line-break", spec.lb2.String())
 		if spec.strip {
 			a = append(a, "--strip-ending-line-break")
 		}
@@ -404,7 +415,7 @@ func e2eDefects(spec *e2eSpec, repaired bool) []string {
 		}
 	case "FIXED":
 		if anyBreak {
-			tags = append(tags, kFixedCrlf)
+			spec.refuse = "a fixed-length cell contains a line break"
 		}
 	case "LTSV":
 		if anyColon {
@@ -414,9 +425,6 @@ func e2eDefects(spec *e2eSpec, repaired bool) []string {
 			tags = append(tags, kLtsvSingle)
 		}
 	case "JSONL":
-		if !spec.strip {
-			tags = append(tags, kJsonlBlank)
-		}
 		if spec.lb == text.CR && len(all) >= 2 {
 			tags = append(tags, kJsonlCR)
 		}
@@ -431,9 +439,6 @@ func e2eDefects(spec *e2eSpec, repaired bool) []string {
 	textual := spec.format == "CSV" || spec.format == "TSV" || spec.format == "LTSV" || spec.format == "FIXED"
 	if textual && spec.lb == text.CR && !spec.strip && lines > 0 {
 		tags = append(tags, kCrFinal)
-	}
-	if strings.HasPrefix(spec.enc, "UTF16") && !spec.strip && spec.format != "JSONL" {
-		tags = append(tags, kUtf16Final)
 	}
 	if strings.HasPrefix(spec.enc, "UTF16") && spec.format == "FIXED" {
 		// any field shorter than its column is padded
@@ -532,6 +537,21 @@ func (c *c02Run) endToEnd(tier string) {
 		}
 	}
 	for _, s := range specs {
+		// the committing process runs under another --line-break than the file's whenever the written file shows
+		// its line break (two lines, or the appended one): COMMIT must keep the file's own
+		s.lb2 = s.lb
+		lines := len(s.rows)
+		if !s.noHeader && s.format != "LTSV" {
+			lines++
+		}
+		detects := s.format == "CSV" || s.format == "TSV" || s.format == "LTSV" || s.format == "FIXED" // the JSON loaders detect no line break
+		if s.path == "commit" && detects && (lines >= 2 || !s.strip) {
+			for k, l := range c02LBs {
+				if l == s.lb {
+					s.lb2 = c02LBs[(k+1)%3]
+				}
+			}
+		}
 		s.tags = e2eDefects(s, c.repaired)
 		if s.stream == "e2e-grid" && len(s.tags) > 0 {
 			s.stream = "e2e-tagged"
@@ -553,6 +573,22 @@ func (c *c02Run) endToEnd(tier string) {
 	fm := map[string]string{"CSV": "FCsv", "TSV": "FTsv", "LTSV": "FLtsv", "FIXED": "FFixed", "JSON": "FJson", "JSONL": "FJsonl"}
 	for i, s := range specs {
 		res := results[i]
+		if s.refuse != "" {
+			// "a cell the format cannot spell is refused with an error and nothing is written"
+			c.meta.Evaluations++
+			c.meta.Distribution["e2e-refusal:"+s.format+"/"+s.path]++
+			cs := map[string]interface{}{"kind": "refusal", "format": s.format, "path": s.path, "why": s.refuse, "header": s.hdr, "rows": showCellRows(s.rows),
+				"commands": res.log, "exit_code": res.writeCode, "stderr": res.writeStderr, "stdout_bytes": res.stdoutLen, "out_file_bytes": res.outFileLen}
+			switch {
+			case res.writeCode == 0:
+				c.meta.Direct = append(c.meta.Direct, DirectViolation{Key: kFixedCrlf, What: s.format + ": " + s.refuse + " and the table was written without an error", Case: cs})
+			case !strings.Contains(res.writeStderr, "data encode error"):
+				c.meta.Direct = append(c.meta.Direct, DirectViolation{Key: "refusal-error-class", What: s.format + ": " + s.refuse + ": the refusal is not a data encode error: " + res.writeStderr, Case: cs})
+			case res.stdoutLen > 0 || res.outFileLen > 0:
+				c.meta.Direct = append(c.meta.Direct, DirectViolation{Key: kLtsvPartial, What: fmt.Sprintf("%s: %s: refused, but %d bytes reached stdout / %d bytes the --out file", s.format, s.refuse, res.stdoutLen, res.outFileLen), Case: cs})
+			}
+			continue
+		}
 		id := c.nextID()
 		all := append([][]*string{}, s.rows...)
 		if s.ins != nil {
@@ -560,7 +596,7 @@ func (c *c02Run) endToEnd(tier string) {
 		}
 		showRows := showCellRows(all)
 		body := map[string]interface{}{"stream": s.stream, "format": s.format, "path": s.path, "line_break": s.lb.String(), "enclose_all": s.enclose,
-			"without_header": s.noHeader, "strip_ending_line_break": s.strip, "delimiter": string(s.delim), "encoding": s.enc,
+			"without_header": s.noHeader, "strip_ending_line_break": s.strip, "delimiter": string(s.delim), "encoding": s.enc, "line_break_of_committing_process": s.lb2.String(),
 			"header": s.hdr, "rows": showRows, "commands": res.log}
 		after := res.after
 		if res.writeErr != "" {
@@ -592,8 +628,8 @@ func (c *c02Run) endToEnd(tier string) {
 		if after.err == nil {
 			obs = fmt.Sprintf("(OTab %s None false)", coqTable(after.hdr, after.rows))
 		}
-		c.w.add("ecases:ecase", fmt.Sprintf("mkE %d %d %s %s %s\n   %s\n   %s\n   %s %s %s %s %d%%nat %s %s %s", id, sid, fm[s.format], coqBool(s.enclose), coqBool(s.noHeader),
-			coqTable(s.hdr, all), obs, ebytes, coqLB(s.lb), coqRune(s.delim), coqBool(s.strip), nIns, coqBool(c.repaired), c02Letters(texts...), coqBool(ecmp)))
+		c.w.add("ecases:ecase", fmt.Sprintf("mkE %d %d %s %s %s\n   %s\n   %s\n   %s %s %s %s %d%%nat %s %s %s %s", id, sid, fm[s.format], coqBool(s.enclose), coqBool(s.noHeader),
+			coqTable(s.hdr, all), obs, ebytes, coqLB(s.lb), coqRune(s.delim), coqBool(s.strip), nIns, coqBool(c.repaired), c02Letters(texts...), coqBool(ecmp), coqLB(s.lb2)))
 		c.meta.Distribution["e2e:"+s.format+"/"+s.path]++
 		c.meta.Distribution["e2e-encoding:"+s.enc]++
 		if after.err != nil {
@@ -611,40 +647,89 @@ func (c *c02Run) endToEnd(tier string) {
 }
 
 // refusals: "a cell the format cannot spell is refused with an error and nothing is written".  LTSV values with a
-// TAB are refused by go-text; the refusal happens while the records are streamed, so what matters is whether
-// anything reached the --out file.  Early refusal (first record) and late refusal (after > 4 KiB) are separate keys.
+// TAB and fixed-length values with a line break or too long for their field are refused while the records are
+// encoded; nothing may reach the --out file / stdout, whether the refusal comes in the first record or after
+// several buffers of output; an INSERT + COMMIT of such a value must leave the committed file unchanged.
 func (c *c02Run) refusals() {
-	for _, late := range []bool{false, true} {
+	type scen struct {
+		format, what, bad string
+		args              []string // format-specific write options
+		key               string
+	}
+	scens := []scen{
+		{"LTSV", "value with TAB", "bad\tvalue", nil, "unspellable-accepted"},
+		{"FIXED", "value with LF", "bad\nvalue", nil, kFixedCrlf},
+		{"FIXED", "value with CR", "bad\rvalue", []string{"--write-delimiter-positions", "[40,42]"}, kFixedCrlf},
+		{"FIXED", "value too long for its field", strings.Repeat("L", 60), []string{"--write-delimiter-positions", "[40,42]"}, "unspellable-accepted"},
+	}
+	to := 20 * time.Second
+	for _, sn := range scens {
+		for _, late := range []bool{false, true} {
+			for _, path := range []string{"out", "stdout"} {
+				sc := newScratch()
+				n := 3
+				if late {
+					n = 400
+				}
+				rows := make([][]*string, n)
+				for i := range rows {
+					rows[i] = []*string{sp(fmt.Sprintf("value%05d-%s", i, strings.Repeat("x", 24))), sp("y"), sp("g")}
+				}
+				bad := 0
+				if late {
+					bad = n - 1
+				}
+				rows[bad][0] = sp(sn.bad)
+				writeCSV(sc.Path("src.csv"), []string{"k1", "k2", "zz"}, rows)
+				args := append([]string{"--repository", sc.Dir, "--quiet", "-f", sn.format}, sn.args...)
+				if path == "out" {
+					args = append(args, "--out", "out.dat")
+				}
+				args = append(args, "SELECT k1, k2 FROM src")
+				r := runCsvq(sc.Dir, args, "", to)
+				b, _ := os.ReadFile(sc.Path("out.dat"))
+				sc.Close()
+				left := len(b) + len(r.Stdout)
+				c.meta.Evaluations++
+				c.meta.Distribution[fmt.Sprintf("e2e-refusal:%s/%s/late=%v", sn.format, path, late)]++
+				cs := map[string]interface{}{"kind": "refusal", "format": sn.format, "what": sn.what, "records": n, "unspellable_record": bad, "command": "csvq " + strings.Join(args, " "),
+					"exit_code": r.Code, "stderr": strings.TrimSpace(r.Stderr), "bytes_in_out_file": len(b), "bytes_on_stdout": len(r.Stdout)}
+				switch {
+				case r.Code == 0:
+					c.meta.Direct = append(c.meta.Direct, DirectViolation{Key: sn.key, What: sn.format + " " + sn.what + " was written without an error", Case: cs})
+				case !strings.Contains(r.Stderr, "data encode error"):
+					c.meta.Direct = append(c.meta.Direct, DirectViolation{Key: "refusal-error-class", What: sn.format + " " + sn.what + ": the refusal is not a data encode error: " + strings.TrimSpace(r.Stderr), Case: cs})
+				case left > 0:
+					c.meta.Direct = append(c.meta.Direct, DirectViolation{Key: kLtsvPartial, What: fmt.Sprintf("%s %s refused in record %d of %d, but %d bytes were written (nothing should be)", sn.format, sn.what, bad+1, n, left), Case: cs})
+				}
+			}
+		}
+		// INSERT + COMMIT of the unspellable value into an existing file: refused, the committed file unchanged
 		sc := newScratch()
-		n := 3
-		if late {
-			n = 400
-		}
-		rows := make([][]*string, n)
-		for i := range rows {
-			rows[i] = []*string{sp(fmt.Sprintf("value%05d-%s", i, strings.Repeat("x", 24))), sp("y"), sp("g")}
-		}
-		bad := 0
-		if late {
-			bad = n - 1
-		}
-		rows[bad][0] = sp("bad\tvalue")
+		rows := [][]*string{{sp("v1"), sp("y"), sp("g")}, {sp("v2"), sp("z"), sp("g")}}
 		writeCSV(sc.Path("src.csv"), []string{"k1", "k2", "zz"}, rows)
-		args := []string{"--repository", sc.Dir, "--quiet", "-f", "LTSV", "--out", "out.ltsv", "SELECT k1, k2 FROM src"}
-		r := runCsvq(sc.Dir, args, "", 20*time.Second)
-		b, _ := os.ReadFile(sc.Path("out.ltsv"))
+		wargs := append([]string{"--repository", sc.Dir, "--quiet", "-f", sn.format}, sn.args...)
+		r0 := runCsvq(sc.Dir, append(wargs, "--out", "out.dat", "SELECT k1, k2 FROM src"), "", to)
+		before, _ := os.ReadFile(sc.Path("out.dat"))
+		iargs := []string{"--repository", sc.Dir, "--quiet", "-i", sn.format}
+		if len(sn.args) > 0 {
+			iargs = append(iargs, "--delimiter-positions", sn.args[1])
+		}
+		q := "INSERT INTO `out.dat` VALUES (" + sqlLit(sp(sn.bad)) + ", 'w')"
+		r := runCsvq(sc.Dir, append(iargs, q), "", to)
+		after, _ := os.ReadFile(sc.Path("out.dat"))
 		sc.Close()
 		c.meta.Evaluations++
-		c.meta.Distribution[fmt.Sprintf("e2e-refusal:late=%v", late)]++
-		cs := map[string]interface{}{"kind": "refusal", "format": "LTSV", "records": n, "unspellable_record": bad, "command": "csvq " + strings.Join(args, " "),
-			"exit_code": r.Code, "stderr": strings.TrimSpace(r.Stderr), "bytes_left_in_out_file": len(b)}
+		c.meta.Distribution["e2e-refusal:"+sn.format+"/commit"]++
+		cs := map[string]interface{}{"kind": "refusal-commit", "format": sn.format, "what": sn.what, "statement": q, "setup_exit_code": r0.Code,
+			"exit_code": r.Code, "stderr": strings.TrimSpace(r.Stderr), "file_before": string(before), "file_after": string(after)}
 		switch {
+		case r0.Code != 0 || len(before) == 0:
+			c.meta.Direct = append(c.meta.Direct, DirectViolation{Key: "harness-setup", What: "refusal scenario: the file to update could not be written: " + strings.TrimSpace(r0.Stderr), Case: cs})
 		case r.Code == 0:
-			c.meta.Direct = append(c.meta.Direct, DirectViolation{Key: "unspellable-accepted", What: "an LTSV value containing TAB was written without an error", Case: cs})
-		case len(b) > 0 && late:
-			c.meta.Direct = append(c.meta.Direct, DirectViolation{Key: kLtsvPartial, What: fmt.Sprintf("LTSV refusal in record %d of %d left %d bytes in the --out file (nothing should be written)", bad+1, n, len(b)), Case: cs})
-		case len(b) > 0:
-			c.meta.Direct = append(c.meta.Direct, DirectViolation{Key: "unspellable-written", What: fmt.Sprintf("LTSV refusal in the first record left %d bytes in the --out file", len(b)), Case: cs})
+			c.meta.Direct = append(c.meta.Direct, DirectViolation{Key: sn.key, What: sn.format + " " + sn.what + " was INSERTed and committed without an error", Case: cs})
+		case string(before) != string(after):
+			c.meta.Direct = append(c.meta.Direct, DirectViolation{Key: "refused-commit-changed-file", What: sn.format + " " + sn.what + ": the COMMIT was refused but the file changed", Case: cs})
 		}
 	}
 }
